@@ -1,4 +1,6 @@
 pub mod emit_run;
+pub mod front;
+pub mod stress;
 pub mod lalr_diff;
 
 pub fn selftest() -> i32 {
